@@ -137,7 +137,7 @@ pub fn gen_plan(def: &CheckDef, ctx: &Ctx, seed: u64, thorough: bool) -> Plan {
         "board" => Plan::Board(boardsim::gen_plan(def.id, seed, thorough, &ctx.pool)),
         // C16 also covers the output path of the shipped binary itself (engine_app/src/main.rs):
         // several threads inside print_ln at once, interleaved by Miri's seeded scheduler
-        "engine" if def.id == "C16" && seed % APP_SHARE == 7 => Plan::App(appsim::gen_plan(seed, thorough)),
+        "engine" if def.id == "C16" && seed % APP_SHARE == 7 && std::env::var("VERIF_APPLINE").map_or(true, |v| v != "off") => Plan::App(appsim::gen_plan(seed, thorough)),
         "engine" => Plan::Engine(enginesim::gen_plan(def.id, seed, thorough, &ctx.pool)),
         "line" => {
             if seed % 8 == 0 {
